@@ -141,36 +141,81 @@ func ruleClientReport(c *Ctx, a *udpAnchors) {
 	}
 	// exactly when an association exists: cut by targetConn != nil, where targetConn is the per-iteration association variable
 	recv := eng.Receiver(&r.Call)
-	var assocCell *ssa.Alloc
+	// the association the report is made on: a per-datagram variable (captured by the per-datagram closure) or the result of the
+	// per-datagram helper; in both cases it lives in a cell somewhere, which is what "recorded on every path" is checked against
+	var base ssa.Value
 	for _, o := range p.Origins(recv, eng.OriginOpts{}) {
-		if t, fl, base, ok := eng.FieldLoad(o); ok && t == a.m.connT && fl == a.m.metField {
-			if u, ok := base.(*ssa.UnOp); ok {
-				assocCell = eng.CellRoot(u.X)
+		if t, fl, b, ok := eng.FieldLoad(o); ok && t == a.m.connT && fl == a.m.metField {
+			base = b
+		}
+	}
+	var cells []*ssa.Alloc
+	if base != nil {
+		stopAtCell := deepF
+		stopAtCell.Stop = func(v ssa.Value) bool {
+			u, ok := v.(*ssa.UnOp)
+			return ok && u.Op == token.MUL && eng.CellRoot(u.X) != nil
+		}
+		for _, o := range p.Origins(base, stopAtCell) {
+			if u, ok := o.(*ssa.UnOp); ok && u.Op == token.MUL {
+				if cell := eng.CellRoot(u.X); cell != nil {
+					dup := false
+					for _, x := range cells {
+						if x == cell {
+							dup = true
+						}
+					}
+					if !dup {
+						cells = append(cells, cell)
+					}
+				}
 			}
 		}
 	}
-	if assocCell == nil {
+	if base == nil || len(cells) == 0 {
 		c.CheckAt("CLIENT", key+":reported-on-the-association's-metrics", r, false, "the report is not made on the metrics object of this datagram's association")
 	} else {
-		_, nn := p.NilEdges(rf, func(v ssa.Value) bool {
-			u, ok := v.(*ssa.UnOp)
-			return ok && eng.CellRoot(u.X) == assocCell
-		})
-		c.CheckAt("CLIENT", key+":only-when-an-association-exists", r, len(nn) > 0 && eng.Cut(rf, r.Block(), nn), "the report is reachable when no association exists (nil dereference) or is not guarded by the association test")
-		ok, _, _ := perIterationCell(c, &ssa.UnOp{Op: token.MUL, X: assocCell})
-		lc := eng.InnermostLoop(eng.Loops(assocCell.Parent()), assocCell.Block())
-		c.CheckAt("CLIENT", key+":association-variable-is-per-datagram", r, lc != nil, "the association variable is declared outside the loop: a datagram that finds no association is reported against the previous datagram's association")
-		_ = ok
-		// the only stores: Get result and Add result
-		for _, st := range p.CellStores(assocCell) {
-			g, _ := p.AllFrom(st.Val, deepF, func(v ssa.Value) bool {
-				if cst, isC := v.(*ssa.Const); isC && cst.IsNil() {
-					return true
+		isAssoc := func(v ssa.Value) bool {
+			if v == base {
+				return true
+			}
+			if u, ok := v.(*ssa.UnOp); ok && u.Op == token.MUL {
+				cr := eng.CellRoot(u.X)
+				for _, x := range cells {
+					if cr == x {
+						return true
+					}
 				}
-				cc, _, ok := eng.AsResult(v)
-				return ok && (callTo(c, cc, a.m.get) || callTo(c, cc, a.m.add))
-			})
-			c.CheckAt("CLIENT", key+":association-variable-from-Get-or-Add", st, g, "the association variable receives something other than the result of the table lookup or of Add")
+			}
+			return false
+		}
+		_, nn := p.NilEdges(rf, isAssoc)
+		c.CheckAt("CLIENT", key+":only-when-an-association-exists", r, len(nn) > 0 && eng.Cut(rf, r.Block(), nn), "the report is reachable when no association exists (nil dereference) or is not guarded by the association test")
+		// per datagram: the tested value is produced inside the loop (a variable declared in it, or the helper's result)
+		perIter := true
+		if bi, ok := base.(ssa.Instruction); ok && bi.Parent() == rf {
+			perIter = l != nil && l.Body[bi.Block()]
+		}
+		for _, cell := range cells {
+			if cell.Parent() == rf {
+				if lc := eng.InnermostLoop(eng.Loops(rf), cell.Block()); lc == nil {
+					perIter = false
+				}
+			}
+		}
+		c.CheckAt("CLIENT", key+":association-variable-is-per-datagram", r, perIter, "the association variable is declared outside the loop: a datagram that finds no association is reported against the previous datagram's association")
+		// the only stores: Get result and Add result
+		for _, cell := range cells {
+			for _, st := range p.CellStores(cell) {
+				g, _ := p.AllFrom(st.Val, deepF, func(v ssa.Value) bool {
+					if cst, isC := v.(*ssa.Const); isC && cst.IsNil() {
+						return true
+					}
+					cc, _, ok := eng.AsResult(v)
+					return ok && (callTo(c, cc, a.m.get) || callTo(c, cc, a.m.add))
+				})
+				c.CheckAt("CLIENT", key+":association-variable-from-Get-or-Add", st, g, "the association variable receives something other than the result of the table lookup or of Add")
+			}
 		}
 		// ... and as soon as an association is known it is recorded in that variable, on every way out: a datagram that then
 		// fails (wrong key, rejected destination) is still a datagram on a live association and must be reported
@@ -178,10 +223,17 @@ func ruleClientReport(c *Ctx, a *udpAnchors) {
 			src := src
 			isRec := func(ins ssa.Instruction) bool {
 				st, ok := ins.(*ssa.Store)
-				if !ok || eng.CellRoot(st.Addr) != assocCell {
+				if !ok {
 					return false
 				}
-				return p.AnyFrom(st.Val, deepF, func(v ssa.Value) bool { return eng.ResultOf(v, src, 0) })
+				cr := eng.CellRoot(st.Addr)
+				hit := false
+				for _, x := range cells {
+					if cr == x {
+						hit = true
+					}
+				}
+				return hit && p.AnyFrom(st.Val, deepF, func(v ssa.Value) bool { return eng.ResultOf(v, src, 0) })
 			}
 			_, nonNil := p.NilEdges(src.Parent(), func(v ssa.Value) bool { return v == ssa.Value(src) || eng.ResultOf(v, src, 0) })
 			okRec := true
